@@ -729,6 +729,15 @@ func checkSeq(t *testing.T, c SeqCase) harness.Verdict {
 					v.Failf("accepted-"+exp[len("refuse-"):], "step %d: update of log %d (request id %q) to tree %d size %d (held %d, proof %s, sign mode %d, id field %d) succeeded: %q", step, li, id, ti, n, hs, proofNames[o.Proof], o.Sign, o.IDField, r.body)
 					break
 				}
+				// Whatever the reason of the refusal: an answer in the "you are out of date" class (gRPC
+				// FailedPrecondition / HTTP 409 - the class the witness uses for stale and inconsistent
+				// submissions, whose body a feeder reads as the held STH) carries the held STH.
+				if r.outdated && o.ReqID == reqKnown && h != nil && !bytes.Equal(r.body, h.raw) {
+					v.Failf("conflict-answer-without-held-sth", "step %d: %s on log %d answered as a conflict (%s) with body %q, want the held raw STH %q", step, exp, li, r.note, r.body, h.raw)
+				}
+				if r.outdated {
+					class("refusal-signalled-as-conflict:" + exp)
+				}
 				if (exp == expStale || exp == expConflict || exp == expInconsistent) && !perturbed {
 					if !bytes.Equal(r.body, h.raw) {
 						v.Failf("refusal-without-held-sth", "step %d: %s on log %d answered %q (%s), want the held raw STH %q", step, exp, li, r.body, r.note, h.raw)
